@@ -1,11 +1,13 @@
 package drv
 
 import (
+	"errors"
 	"fmt"
 	"sort"
 	"strings"
 	"sync"
 
+	badgerdb "github.com/dgraph-io/badger/v4"
 	"github.com/ostafen/clover/v2/document"
 	"verif/m"
 	"verif/vstore"
@@ -298,6 +300,11 @@ func AuditAPI(in *Inst, model *m.DB, opt AuditOpts) []Finding {
 	return out
 }
 
+// StoreRefused: the store rejected the whole transaction for a reason of its own (size limit).
+func StoreRefused(err error) bool {
+	return err != nil && errors.Is(err, badgerdb.ErrTxnTooBig)
+}
+
 // Step executes one write/catalog operation on the implementation and on the model.
 // It returns the result, the model state adopted, and the findings about the operation's own outcome.
 func Step(in *Inst, model *m.DB, o m.Op) (*Result, *m.DB, []Finding) {
@@ -321,6 +328,11 @@ func Step(in *Inst, model *m.DB, o m.Op) (*Result, *m.DB, []Finding) {
 		out = append(out, fnd("leak", "%s: %s", o, res.Leak))
 	}
 	if res.Panic != nil {
+		return res, model, out
+	}
+	if StoreRefused(res.Err) {
+		// the store refused the transaction as a whole (badger's per-transaction size limit): a legal outcome of any
+		// write, provided nothing was applied - the caller's audits run against the unchanged model state
 		return res, model, out
 	}
 	obs := &m.Obs{GenIDs: res.GenIDs, Affected: res.Affected}
